@@ -197,6 +197,19 @@ func init() {
 		})
 		sc2.AfterOp = after
 		scs = append(scs, sc2)
+		// large configurations: 36 relation tables (most of them freed by the alphabet's removals), tables of > 64 rows
+		for _, sc := range scaleTargets(d-2, drv.Oracle{World: true, Typed: true, Filters: true, Lock: true}) {
+			sc.Name = "C15-" + sc.Name
+			sc.Alphabet = concat(sc.Alphabet, shr)
+			sc.AfterOp = after
+			scs = append(scs, sc)
+		}
+		for _, sc := range scaleRows(d - 2) {
+			sc.Name = "C15-" + sc.Name
+			sc.Alphabet = concat(sc.Alphabet, shr)
+			sc.AfterOp = after
+			scs = append(scs, sc)
+		}
 		return &Check{ID: "C15", Scenarios: scs, Special: clockSweep,
 			Rule:   "all histories over the relation and the batch alphabets with Shrink() and repeated Shrink(0) at every position, also while queries are open and with registered filters; oracle: full model comparison (entities, values, relations, filter family, cached filters) after the call and after every later operation, capacity bounds from Stats() after an unbounded Shrink, repeated limited Shrink terminates; non-trivial = >=1 alive entity",
 			Assume: []string{"in the main exploration time-limited Shrink is driven with limit 0; the virtual-clock sweep (time overlay) enumerates all clock answer patterns of length 4 (quick) / 6 (thorough) at every state of a depth 2 / 3 exploration"}}
@@ -324,8 +337,10 @@ func init() {
 			hi.Preludes = pre[1:]
 			scs3 = append(scs3, &hi)
 		}
-		return &Check{ID: "C03", Scenarios: scs3,
+		chk := &Check{ID: "C03", Scenarios: scs3,
 			Rule: fmt.Sprintf("world states = all histories of the relation/batch alphabet (tables emptied, freed by Shrink, recycled; targets dying, IDs recycled) from 3 preludes; in every state a family of %d filters (with-sets over {P,Q,R1,R2} x none/one excluded/exclusive x relation constraints {none, zero, #0, #1} given in the filter and per query; typed Filter0/1/2 with With, and UnsafeFilter) plus persistent filters whose targets die is evaluated: visited multiset, once each, Count, EntityAt order, Get pointers address-equal to Unsafe.Get with model values, GetRelation, unlocked afterwards; non-trivial = >=1 alive entity", len(fam))}
+		addThreshold(chk, "many-archetypes", manyArchetypesSweep, "threshold sweep: n in {2,...,127,128,129,130,254,255,256,257,300} archetypes that all contain the queried components, one entity each: Count and the visited set of un-cached FilterN, a registered filter and UnsafeFilter, then batch removal over all of them")
+		return chk
 	}
 
 	Registry["C05"] = func(t Tier) *Check {
@@ -353,7 +368,7 @@ func init() {
 			}),
 			Alphabet: alpha, Depth: d,
 		}
-		return &Check{ID: "C05", Scenarios: []*engine.Scenario{sc},
+		return &Check{ID: "C05", Scenarios: []*engine.Scenario{sc, scaleFilters(d - 1)},
 			Rule: "all histories over the relation alphabet plus Register/Unregister of three filters (plain relation filter, filter with a fixed relation target, exclusive filter) and Open/Next/Close of queries in 2 slots (so registration changes happen while queries of the same and of other filters are open), Shrink and Reset; in every state every created filter (registered or not) is evaluated with no and with per-query targets against the model (multiset, Count, EntityAt), batch selection through RemoveEntities/SetRelationsBatch callbacks, Stats().CachedFilters; non-trivial = >=1 registered filter and >=1 alive entity",
 		}
 	}
@@ -469,7 +484,9 @@ func init() {
 			Preludes: pre, Alphabet: alpha(true), Depth: d,
 		}
 
-		return &Check{ID: "C06", Scenarios: []*engine.Scenario{sc},
+		chk := &Check{ID: "C06", Scenarios: []*engine.Scenario{sc},
 			Rule: "all histories over every batch operation (NewBatch/NewBatchFn, NewEntities, AddBatch via MapN/Map/ExchangeN with value / callback / nil callback, RemoveBatch, ExchangeBatch, SetRelationsBatch, RemoveEntities; cached and uncached batch filters, with and without per-batch targets) mixed with single moves, from 3 preludes; oracle: callback exactly once per model-selected entity with that entity's handle, unique values written through the callback pointers are read back from that entity, resulting world equals the model's fold of the single-entity operation, unselected entities untouched; non-trivial = >=1 alive entity"}
+		addThreshold(chk, "many-tables", manyTargetsSweep, "threshold sweep: n in {2,15..17,31..34,64,65,255..258} relation targets with one child table each, registered and unregistered filters: AddBatchFn, RemoveBatch, SetRelationsBatch and RemoveEntities over all tables at once (callback counts, values, targets, filter counts after every step)")
+		return chk
 	}
 }
